@@ -464,6 +464,18 @@ func runC21() int {
 	}
 	wg.Wait()
 	exhaustive := !stopped.Load()
+	// ---- API leg: every list route of api.NewRouter, cursors followed by a client
+	var apiLeg map[string]any
+	if exhaustive && !r.HasEngineError() {
+		extra, err := build(ctx, []*History{schemasHistory()})
+		if err != nil {
+			r.EngineError(err.Error())
+		} else {
+			var done bool
+			apiLeg, done = runC21HTTP(ctx, r, append(append([]*Built(nil), built...), extra...))
+			exhaustive = exhaustive && done
+		}
+	}
 	if exhaustive && !r.HasEngineError() {
 		for name, ls := range st.perListing {
 			if ls.MultiPage == 0 || ls.MaxPages < 3 {
@@ -479,18 +491,27 @@ func runC21() int {
 		per[k] = map[string]any{"walks": v.Walks, "multi_page_walks": v.MultiPage, "max_pages": v.MaxPages, "max_entities": v.MaxEntities}
 	}
 	return r.Finish(ev.Coverage{
-		"evaluations":            st.walks.Load(),
-		"distinct_nontrivial":    st.multiPage.Load(),
+		"evaluations":            st.walks.Load() + apiWalks(apiLeg, "walks"),
+		"distinct_nontrivial":    st.multiPage.Load() + apiWalks(apiLeg, "multi_page_walks"),
+		"controller_leg_walks":   st.walks.Load(),
+		"api_leg":                apiLeg,
 		"walks_with_3plus_pages": st.threePlus.Load(),
 		"previous_steps":         st.prevSteps.Load(),
 		"scenarios":              len(scs),
 		"per_listing":            per,
-		"rule":                   "3 fixed histories × every paginated listing (transactions by id, logs by id — column paginator; accounts by address, volumes by account with groupLvl 0,1,2 — offset paginator) × current state and one point in time (thorough: every point in time, volumes also by insertion date) × 3 filters (none, an address pattern or id bound, an $or/$not formula; thorough: 5, adding ¬a and a∧¬b) × asc and desc × EVERY page size 1..N+1 (N = number of matching entities, up to 16): follow `next` from the first page to the end, then `previous` from the last page back to the first. Concatenation of the pages must be the reference evaluator's entity set, each once, ordered by the sort key in the requested direction (byte order for addresses; for volumes the sort key is the account, the order of assets within an account is not constrained); every non-final page is full; previous-of-page-k returns page k−1 exactly. distinct_nontrivial = walks that needed at least two pages",
+		"rule":                   "3 fixed histories × every paginated listing (transactions by id, logs by id — column paginator; accounts by address, volumes by account with groupLvl 0,1,2 — offset paginator) × current state and one point in time (thorough: every point in time, volumes also by insertion date) × 3 filters (none, an address pattern or id bound, an $or/$not formula; thorough: 5, adding ¬a and a∧¬b) × asc and desc × EVERY page size 1..N+1 (N = number of matching entities, up to 16): follow `next` from the first page to the end, then `previous` from the last page back to the first. Concatenation of the pages must be the reference evaluator's entity set, each once, ordered by the sort key in the requested direction (byte order for addresses; for volumes the sort key is the account, the order of assets within an account is not constrained); every non-final page is full; previous-of-page-k returns page k−1 exactly. distinct_nontrivial = walks that needed at least two pages (both legs). API LEG (api_leg), after the controller leg: the same property as a client of the HTTP API sees it. Every list route of the real api.NewRouter — GET /v2/{ledger}/volumes, /transactions, /accounts, /logs, /schemas, GET /v2 (ledgers), and the v1 routes GET /{ledger}/transactions, /accounts, /balances, /logs — × the FULL cross product of the route's request-level parameter menus, fewest parameters first (volumes: end of window {absent, pit, legacy endTime} × start of window {absent, oot, legacy startTime} × insertionDate {absent, true} × groupBy {absent, 1, 2} × sort {absent, account:desc} × filter {absent, ?query=}; transactions: pit × reverse × sort=id:asc × expand {absent, volumes, effectiveVolumes} × filter; accounts: pit × sort=address:desc × expand × filter; logs: sort=id:asc × filter; schemas (a history with four versions inserted out of name order): sort {absent, version, version:asc, created_at:asc} × order {absent, asc}; ledgers (six ledgers over three buckets, one bucket soft-deleted): includeDeleted {absent, true} × sort=id:desc × bucket filter; v1 transactions: account × source × metadata[k] × startTime|start_time × endTime|end_time (thorough: × destination); v1 accounts: address × metadata[role] × balance+balanceOperator; v1 balances: address; v1 logs: start_time × end_time; the point in time is one minute after the base instant, which the future-dated transactions precede by insertion and follow by effective date, the window start is the first «now» transaction, which the back-dated transactions precede by effective date and follow by insertion; thorough: a second point in time, a second filter, the filter sent in the request body) × the 3 histories × page sizes 1, 2, 3 and «no pageSize parameter» (router default 4; thorough: every size 1..N+1 and none): the first request carries the parameters, every further page is requested with GET route?cursor=<next> ALONE (thorough: also with every parameter sent again beside the cursor), to the end, then `previous` back to the first page. Oracle: the concatenation of the pages equals the SAME request served as one page (pageSize=100): no entity twice, none missing, none extra, every entity the same JSON document (volumes, balances, expanded volumes, metadata), same order by the sort key, every page reports the requested pageSize, inner pages full, previous-of-page-k is page k−1; a request the route refuses must be refused identically whatever the page size; and the one-page listing of every v2 transactions/accounts/logs/volumes request without a window start equals the reference evaluator's selection in the requested order. Vacuity guards of the leg: every route needs three pages at least once, and for EVERY non-absent value of EVERY parameter menu of EVERY route there is a multi-page walk whose one-page listing changes when that parameter alone is dropped (load_bearing_params) — a handler that forgets or re-derives the parameter after the first page cannot pass",
 		"samples":                samples.List(),
 		"exhaustive":             exhaustive,
-	}, []string{pgsimAssumption,
+	}, []string{pgsimAssumption, httpAssumptionC21,
 		"pgsim sorts text bytewise and its sort is stable; tie order between assets of one account in the volumes listing is therefore deterministic here although the SQL does not order by asset",
 	})
+}
+
+func apiWalks(leg map[string]any, k string) int64 {
+	if n, ok := leg[k].(int64); ok {
+		return n
+	}
+	return 0
 }
 
 func jsonOf(f *F) string {
